@@ -296,3 +296,23 @@ prop(
     exhaustive_scope="the 125 action shapes x 8 child behaviours are each visited; timeouts and times are sampled",
     assumptions=["out-of-range action values are 4, 7 and -1", "a signal sent to a child that has exited but is not yet reaped is permitted (the pid is still the child's)"],
 )
+
+prop(
+    "C08",
+    title="Deadlines and timeouts bound every wait and poll, whatever the order of sources",
+    level="exploration",
+    engine="vtime",
+    campaigns=[dict(bin="C08", random=dict(quick=4000, thorough=80000))],
+    level_text=("1-6 poll sources in generated order (NULL sources interleaved), each process started with no deadline, a future one (1..1e5 ms, INT_MAX) or one that has expired by the time of "
+                "the poll; timeouts {0, finite, INFINITE} constructed around the remaining deadlines and child event times (smaller / equal / larger); scripted child writes, closes and exits "
+                "before, between and after those bounds; up to three polls in a row (repeat after expiry); then reproc_wait with 0 / finite / DEADLINE / INFINITE. On a virtual clock the oracle "
+                "compares the return time exactly with min(first requested event, timeout, earliest deadline), the return value and the placement of the deadline event; re-polling the same instant "
+                "with the sources rotated and a NULL source inserted must give the same answer (metamorphic)."),
+    level_note="Virtual time: real poll(2) rounding is below the model's resolution. Nothing is read between polls, so an event stays observable once it has occurred. Ties between bounds accept either shape.",
+    technique="model-based property testing on a virtual clock (rapidcheck tape), min(E,T,D) oracle computed from the script + metamorphic permutation relation",
+    rule=("tape -> number of sources, per source NULL / deadline kind / interest mask / start gap / one scripted child event and its time, time of the first poll, 1-3 poll timeouts, wait form, epoch "
+          "(incl. > 2^31 and > 2^41 ms). Non-trivial: processes with different deadline kinds, or a NULL source interleaved, or timeout within 1 ms of the earliest deadline, or a poll repeated after expiry. "
+          "Distinct: hash of the source descriptions, timeouts and times."),
+    essential=dict(quick=["two-or-more-processes", "mixed-deadline-kinds", "null-source-interleaved", "timeout-within-1ms-of-deadline", "poll-repeated-after-expiry", "deadline-came-first", "timeout-came-first", "event-came-first", "permuted-rerun", "wait-checked", "epoch-beyond-2^31-ms"]),
+    assumptions=["all three streams are pipes; an idle stdin pipe is always writable, so IN interest makes a poll return at once", "deadline option values are positive ints (0 = none)"],
+)
